@@ -62,9 +62,9 @@ fn compare(prog: &[S], text: &str) -> Outcome {
 
 fn layouts(seed: u64) -> Vec<(&'static str, Layout)> {
     vec![
-        ("minimal-parens", Layout { trivia: Trivia::Sparse, redundant_parens: 0, paren_assign_rhs: true, paren_deviating: false, seed }),
-        ("redundant-parens", Layout { trivia: Trivia::Lines, redundant_parens: 35, paren_assign_rhs: true, paren_deviating: false, seed: seed ^ 7 }),
-        ("dense-trivia", Layout { trivia: Trivia::Dense, redundant_parens: 10, paren_assign_rhs: true, paren_deviating: false, seed: seed ^ 9 }),
+        ("minimal-parens", Layout { trivia: Trivia::Sparse, redundant_parens: 0, paren_assign_rhs: true, paren_deviating: false, trailing_commas: 0, seed }),
+        ("redundant-parens", Layout { trivia: Trivia::Lines, redundant_parens: 35, paren_assign_rhs: true, paren_deviating: false, trailing_commas: 0, seed: seed ^ 7 }),
+        ("dense-trivia", Layout { trivia: Trivia::Dense, redundant_parens: 10, paren_assign_rhs: true, paren_deviating: false, trailing_commas: 0, seed: seed ^ 9 }),
     ]
 }
 
